@@ -248,6 +248,13 @@ fn main() {
             qlong::direct_qlong(&m["prop"], seed, max_n, &mut r);
             r
         }
+        ("direct", Some("histbig")) => {
+            let mut r = Report::default();
+            let seed: u64 = m.get("seed").and_then(|s| s.parse().ok()).unwrap_or(1);
+            let reps: usize = m.get("reps").and_then(|s| s.parse().ok()).unwrap_or(200);
+            hist_types::direct_histbig(&m["prop"], seed, reps, &mut r);
+            r
+        }
         ("direct", Some("histserde")) => {
             let mut r = Report::default();
             let seed: u64 = m.get("seed").and_then(|s| s.parse().ok()).unwrap_or(1);
